@@ -3,8 +3,11 @@ package filters
 import (
 	"math/big"
 
+	sdk "github.com/cosmos/cosmos-sdk/types"
 	"github.com/ethereum/go-ethereum/common"
 	ethtypes "github.com/ethereum/go-ethereum/core/types"
+
+	evmtypes "github.com/EscanBE/evermint/v12/x/evm/types"
 )
 
 // FilterLogs creates a slice of logs matching the given criteria.
@@ -103,4 +106,28 @@ func returnLogs(logs []*ethtypes.Log) []*ethtypes.Log {
 		return []*ethtypes.Log{}
 	}
 	return logs
+}
+
+// ethTxHashOf returns the hash of the Ethereum transaction carried by the given Cosmos tx.
+// The transactions of a block are not necessarily well-formed (a tx that fails basic validation
+// is still part of the block and still announced by an event), so nothing is assumed here:
+// a tx without messages, with another kind of message, or with an Ethereum payload
+// that can not be decoded, is reported as not being an Ethereum tx.
+func ethTxHashOf(tx sdk.Tx) (common.Hash, bool) {
+	msgs := tx.GetMsgs()
+	if len(msgs) == 0 {
+		return common.Hash{}, false
+	}
+
+	ethMsg, ok := msgs[0].(*evmtypes.MsgEthereumTx)
+	if !ok || ethMsg == nil {
+		return common.Hash{}, false
+	}
+
+	ethTx := &ethtypes.Transaction{}
+	if err := ethTx.UnmarshalBinary(ethMsg.MarshalledTx); err != nil {
+		return common.Hash{}, false
+	}
+
+	return ethTx.Hash(), true
 }
